@@ -76,9 +76,9 @@ var reservedWords = map[string]bool{"ancestor": true, "ancestor-or-self": true, 
 	"preceding-sibling": true, "self": true, "comment": true, "text": true, "processing-instruction": true, "node": true,
 	"and": true, "or": true, "div": true, "mod": true}
 
-// prefixFor returns a prefix bound to the URI.  Function and variable names cannot use a prefix that
-// spells an axis or node type (recorded known finding KF-reserved-function-names), so such
-// prefixes are returned only for name tests (allowReserved).
+// prefixFor returns a prefix bound to the URI.  Prefixes that spell an axis, a node type or an
+// operator name are allowed everywhere since the repairs 21a28c3 and 52893c8 (they used to be a
+// syntax error in function names: former known finding KF-reserved-function-names).
 func (g *ExprGen) prefixForKind(uri string, allowReserved bool) (string, bool) {
 	if uri == "" {
 		return "", true
@@ -92,7 +92,7 @@ func (g *ExprGen) prefixForKind(uri string, allowReserved bool) (string, bool) {
 	return "", false
 }
 
-func (g *ExprGen) prefixFor(uri string) (string, bool) { return g.prefixForKind(uri, false) }
+func (g *ExprGen) prefixFor(uri string) (string, bool) { return g.prefixForKind(uri, true) }
 
 func (g *ExprGen) varRef(v VarBind) Expr {
 	if v.Uri == "" {
